@@ -285,7 +285,9 @@ static void pick_next(void)
 			if (opseq_tid >= 0) {
 				T *t = threads[opseq_tid];
 				if (t->wait_kind == W_DONE || killed(t) || t->ops_done >= opseq_target) { opseq_tid = -1; continue; }
-				if (enabled(t) && !t->spinning && ++opseq_op_steps <= 400) { n = t; break; }
+				/* (the spin heuristic — equal loads in a row — is not consulted: straight-line code that
+				 * reads one field three times would end the sequence; endless retries end it by count) */
+				if (enabled(t) && ++opseq_op_steps <= 400) { n = t; break; }
 				/* blocked (or spinning on a condition only another thread can change, or retrying
 				 * without end) inside the operation: the sequence cannot be followed any further */
 				opseq_steps = steps; policy = 3; replay_pos = NULL; break;
@@ -324,6 +326,10 @@ static void pick_next(void)
 		}
 		if (fits) replay_pos = e;
 		else if (policy == 3) { replay_pos = NULL; use_replay = 0; n = NULL; flag = 0; }
+		else if (ne == 0 && !(replay_pos && *replay_pos)) {
+			/* the recorded schedule ends here and nobody can run: the recorded run ended in this deadlock */
+			end_run(VS_DEADLOCK); return;
+		}
 		else { end_run(VS_REPLAY_DIVERGED); return; }
 	}
 	if (use_replay || n) {
